@@ -41,7 +41,7 @@ class C11(Prop):
 
     def harness(self, ctx):
         obs = {}
-        for name in ("C11", "C11Inject", "C11B64"):
+        for name in ("C11", "C11Inject", "C11B64", "C11Tail"):
             rc, out, p, dt = C.go_test_overlay(ctx.work, "./agent/websockets/", "TestVerif%s$" % name, OVERLAY, name + ".jsonl", ctx.seed, ctx.tier, timeout=1800)
             rows = C.read_jsonl(p)
             if rc != 0 or not rows:
@@ -69,6 +69,13 @@ class C11(Prop):
                 res.append(("server-to-client:altered", "polls returned %d messages for %d sent, or different ones" % (len(r["s2c_polled"] or []), len(r["s2c_sent"] or [])), rp))
             if r["close_status"] != 200 or not r["backend_saw_close"]:
                 res.append(("close-not-propagated", "close answered %s, backend saw the end: %s" % (r["close_status"], r["backend_saw_close"]), rp))
+        for r in obs.get("C11Tail", []):
+            rp = {"driver": "TestVerifC11Tail: the backend sends k messages and ends the connection before the client polls", "messages": r.get("messages"), "end": r.get("end"),
+                  "wait_before_first_poll_ms": r.get("wait_before_first_poll_ms"), "poll_statuses": r.get("poll_statuses"), "s2c_sent": (r.get("s2c_sent") or [])[:12], "s2c_polled": (r.get("s2c_polled") or [])[:12]}
+            if r.get("error"):
+                res.append(("session-open-failed", "%s (status %s)" % (r["error"], r.get("status")), rp))
+            elif not r["s2c_equal"]:
+                res.append(("server-to-client:lost-at-end-of-stream", "%d of the %d messages sent before the backend ended the connection were polled" % (len(r["s2c_polled"] or []), len(r["s2c_sent"] or [])), rp))
         for r in obs["C11Inject"]:
             rp = {"driver": "TestVerifC11Inject", "sent": r["sent"], "received": r.get("received"), "request_headers": r["request_headers"]}
             if not r["delivered"] or r["status"] != 200:
